@@ -197,9 +197,30 @@ def table_replay(w):
         fea.rev_if_h_not_worse = orig
 
 
+def loop_carried(cls):
+    """names that `solve` assigns both before and inside its main loop: the state an iteration hands to the next one (besides the
+    arrays it updates in place).  The bounded runs from an ARBITRARY start tour extend to runs of any length only if this is just the
+    running tour length."""
+    import ast
+    fd, _ = xform.parse_fn(cls.solve)
+    body = xform.body_wo_doc(fd)
+    loops = [k for k, st in enumerate(body) if isinstance(st, (ast.While, ast.For))]
+    if not loops:
+        return None
+    k = loops[-1]
+
+    def stored(stmts):
+        return {n_.id for st in stmts for n_ in ast.walk(st) if isinstance(n_, ast.Name) and isinstance(n_.ctx, ast.Store)}
+    return sorted(stored(body[:k]) & stored(body[k].body))
+
+
 def job_loop(algo, n, iters, timeout_s=900, dmax=DMAX):
     A = algos()[algo]
     state = {}
+    carried = loop_carried(A["cls"])
+    if carried is None or len(carried) != 1:
+        return inconclusive(f"solve() of {A['cls'].__name__} carries {carried} from one iteration to the next: {iters} iterations from an arbitrary tour do not "
+                            "extend to longer runs when there is loop state besides the running tour length (nothing is claimed for this shape of the code)")
 
     def h(eng):
         del TABLES[:]
